@@ -35,7 +35,8 @@ pub enum PMut {
     /// re-encode the checksum field of message i dishonestly: 0 = drop its first byte and shorten the TLF
     /// (`63 HH LL` -> `62 LL`), 1 = drop its second byte (`62 HH`), 2 = widen it with a leading zero byte
     /// (`64 00 HH LL`, no longer a 16-bit field), 3 = one-byte field widened honestly (`62 LL` -> `63 00 LL`,
-    /// same value: still valid)
+    /// same value: still valid), 4 = the two checksum bytes exchanged, 5 = bitwise complement, 6 = checksum
+    /// that also covers the checksum field's own TLF byte
     CrcField(u16, u8),
 }
 
@@ -89,7 +90,7 @@ pub fn pmut() -> impl Strategy<Value = PMut> {
         1 => (any::<u16>(), 1u8..5).prop_map(|(i, b)| PMut::TruncateAtMsgEnd(i, b)),
         2 => (any::<u16>(), 1u8..=255).prop_map(|(i, v)| PMut::EndMarker(i, v)),
         2 => (any::<u16>(), 1u8..=255).prop_map(|(i, v)| PMut::CrcByte(i, v)),
-        2 => (any::<u16>(), 0u8..4).prop_map(|(i, v)| PMut::CrcField(i, v)),
+        2 => (any::<u16>(), 0u8..7).prop_map(|(i, v)| PMut::CrcField(i, v)),
     ]
 }
 
@@ -257,6 +258,23 @@ pub fn apply(bytes: &mut Vec<u8>, w: &Written, m: &PMut) -> String {
             let m = &w.msgs[idx(*i, w.msgs.len())];
             // only for the plain encodings `63 HH LL` / `62 LL` (one TLF byte directly before the value)
             if m.crc_val + m.crc_width <= bytes.len() && m.crc_val == m.crc_tlf + 1 {
+                if *mode >= 4 {
+                    if m.crc_width == 2 {
+                        match mode % 7 {
+                            4 => bytes.swap(m.crc_val, m.crc_val + 1),
+                            5 => {
+                                bytes[m.crc_val] = !bytes[m.crc_val];
+                                bytes[m.crc_val + 1] = !bytes[m.crc_val + 1];
+                            }
+                            _ => {
+                                let c = crate::refmodel::transport::crc16_x25(&bytes[m.start..m.crc_val]);
+                                bytes[m.crc_val] = (c & 0xff) as u8;
+                                bytes[m.crc_val + 1] = (c >> 8) as u8;
+                            }
+                        }
+                    }
+                    return "crc-lookalike".into();
+                }
                 match (m.crc_width, mode % 4) {
                     (2, 0) => {
                         bytes[m.crc_tlf] = 0x62;
